@@ -110,9 +110,10 @@ class Task:
 class Sched:
     """Baton-passing scheduler.  Every choice of who runs next comes from the tape."""
 
-    def __init__(self, ctx, step_cap=5000):
+    def __init__(self, ctx, step_cap=5000, policy="uniform"):
         self.ctx = ctx
         self.tape = ctx.tape
+        self.policy = policy
         self.tasks = []
         self.killed = False
         self.fatal = None
@@ -183,7 +184,7 @@ class Sched:
             states = [(t.name, t.state) for t in self.tasks if t.state != "done"]
             raise SimAbort(Violation("deadlock", "no runnable simulated process: %r" % states, step=self.n_switch,
                                      detail={"states": states}))
-        nxt = cands[self.tape.int(0, len(cands) - 1)] if len(cands) > 1 else cands[0]
+        nxt = self.pick(cands, me)
         if nxt.state == "queued":
             nxt.pool.started += 1
         nxt.state = "running"
@@ -198,6 +199,30 @@ class Sched:
             if self.fatal is not None and me is self.main:
                 f, self.fatal = self.fatal, None
                 raise f
+
+    def pick(self, cands, me):
+        """Who runs next.  Every policy is a legal OS schedule; all randomness comes from the tape."""
+        if len(cands) == 1:
+            return cands[0]
+        pol = self.policy
+        pool = cands
+        if pol == "sticky" and me in cands and self.tape.chance(0.85):
+            return me  # run until blocked (coarse-grained interleavings)
+        if pol == "starve_writer":
+            rest = [t for t in cands if t.name != "p0"]
+            if rest and self.tape.chance(0.9):
+                pool = rest  # the writer only runs when nothing else can (records pile up in the queue)
+        elif pol == "starve_main":
+            rest = [t for t in cands if t is not self.main]
+            if rest and self.tape.chance(0.9):
+                pool = rest  # main is the last to notice anything
+        elif pol == "eager_main":
+            if self.main in cands and self.tape.chance(0.9):
+                return self.main  # main races ahead of its workers
+        elif pol == "last_first":
+            if self.tape.chance(0.8):
+                return pool[-1]  # the most recently created process first
+        return pool[self.tape.int(0, len(pool) - 1)]
 
     def shutdown(self):
         """Reap every simulated-process thread."""
@@ -403,7 +428,8 @@ class SimDate:
 class ProcessSim:
     """One in-process run of an MCHap program under the simulated OS."""
 
-    def __init__(self, ctx, proc_rng_init=True, step_cap=5000, capacity=None):
+    def __init__(self, ctx, proc_rng_init=True, step_cap=5000, capacity=None, policy="uniform"):
+        self.policy = policy
         self.ctx = ctx
         self.m = bootstrap()
         self.proc_rng_init = proc_rng_init
@@ -416,7 +442,7 @@ class ProcessSim:
         np = m["np"]
         baseclass, headermeta = m["baseclass"], m["headermeta"]
         ctx = self.ctx
-        s = Sched(ctx, step_cap=self.step_cap)
+        s = Sched(ctx, step_cap=self.step_cap, policy=self.policy)
         out = SimStdout(s, capacity=self.capacity)
         clock = {"day": day}
         s.pool_created_hook = out.pool_created
